@@ -630,7 +630,7 @@ def inline_new_temporaries(tree, table):
             if isinstance(n, ast.Name):
                 (stores if isinstance(n.ctx, ast.Store) else loads).setdefault(n.id, []).append(n)
         for name, st in list(stores.items()):
-            if name in known or len(st) != 1 or len(loads.get(name, ())) != 1:
+            if name in known or "__" in name or len(st) != 1 or len(loads.get(name, ())) != 1:
                 continue
             done = _substitute_once(fn, name)
             count += 1 if done else 0
@@ -770,7 +770,7 @@ def propagate_new_aliases(tree, table):
                 while i < len(block):
                     st = block[i]
                     repeated = isinstance(st, ast.Assign) and len(st.targets) == 1 and isinstance(st.targets[0], ast.Name) and tally.get(st.targets[0].id, 0) >= 2
-                    if isinstance(st, ast.Assign) and len(st.targets) == 1 and isinstance(st.targets[0], ast.Name) and (st.targets[0].id not in known or repeated) and _attr_chain_expr(st.value):
+                    if isinstance(st, ast.Assign) and len(st.targets) == 1 and isinstance(st.targets[0], ast.Name) and repeated and "__" not in st.targets[0].id and _attr_chain_expr(st.value):
                         name = st.targets[0].id
                         chain = st.value
                         root = chain
